@@ -112,6 +112,10 @@ func C09(t *rapid.T) *world.Scenario {
 				rq.Header = append(rq.Header, H(sl.vary, Pick(t, lbl+"-other", otherHeaderValues[sl.vary]...)))
 			}
 		}
+		MaybeOddForm(t, lbl+"-odd", rq, 3)
+		if Pct(t, lbl+"-nomethod", 4) {
+			rq.EmptyMethod = true // Method "" is how net/http spells GET
+		}
 		rp, _ := StorableReply(t, h, lbl+"-rp")
 		if sl.vary != "" {
 			rp.Header = append(rp.Header, H("Vary", sl.vary))
@@ -429,6 +433,12 @@ func C06(t *rapid.T) *world.Scenario {
 		rq.Uncond = rp
 		if rq.Cond == nil && Pct(t, lbl+"-c304", 50) {
 			rq.Cond = Simple304()
+			if Pct(t, lbl+"-c304ns", 25) {
+				// the validation answer forbids storing: none of its fields reaches the store
+				rq.Cond.Header = append(rq.Cond.Header, H("Cache-Control", Pick(t, lbl+"-c304nsv", "no-store", "no-store, max-age=600")), H("X-Mark", "mark$S;"))
+			} else if Pct(t, lbl+"-c304mark", 30) {
+				rq.Cond.Header = append(rq.Cond.Header, H("X-Mark", "mark$S;"), H("Cache-Control", "max-age=600"))
+			}
 		}
 		if rq.Method == "GET" && Pct(t, lbl+"-nomethod", 6) {
 			rq.EmptyMethod = true // Method "" is how net/http spells GET
@@ -489,6 +499,7 @@ func C07(t *rapid.T) *world.Scenario {
 		if Pct(t, lbl+"-foreign", 12) {
 			rq.URL = Pick(t, lbl+"-ftarget", ForeignTargets...)
 		}
+		MaybeOddForm(t, lbl+"-odd", rq, 4)
 		st := Pick(t, lbl+"-st", 200, 201, 204, 301, 303, 200, 204, 400, 404, 409, 500, 503)
 		rp := world.Reply{Kind: "resp", Status: st, Body: world.Body{Len: 12}, Header: [][2]string{H("Date", "$T+0")}}
 		locs := []string{"", "", "/", "/p/r~1%2Fx?q=1&z=%C3%A9", "p/r~1%2Fx?q=1&z=%C3%A9", "http://a.test/", "http://a.test:80/", "HTTP://A.TEST/p/./r~1%2Fx?q=1&z=%C3%A9",
